@@ -150,6 +150,7 @@ type TraceEnt struct {
 type Violation struct {
 	Property    string
 	Oracle      string
+	Class       string // coarse identity preserved while minimising (defaults to Fingerprint)
 	Fingerprint string
 	Message     string
 	Step        int
@@ -974,13 +975,32 @@ func Step() int {
 //
 //go:norace
 func Fail(property, oracle, fingerprint, format string, a ...interface{}) {
+	FailC(property, oracle, fingerprint, fingerprint, format, a...)
+}
+
+// FailC is Fail with a separate minimisation class.
+//
+//go:norace
+func FailC(property, oracle, class, fingerprint, format string, a ...interface{}) {
 	if sim == nil {
 		panic(fmt.Sprintf("violation outside simulation: %s %s: ", property, oracle) + fmt.Sprintf(format, a...))
 	}
 	RaceDisable()
-	sim.res.Violations = append(sim.res.Violations, Violation{Property: property, Oracle: oracle, Fingerprint: fingerprint,
+	sim.res.Violations = append(sim.res.Violations, Violation{Property: property, Oracle: oracle, Class: class, Fingerprint: fingerprint,
 		Message: fmt.Sprintf(format, a...), Step: sim.steps})
 	RaceEnable()
+}
+
+// RewriteViolations lets a scripted scenario give the violations of this run a stable identity.
+//
+//go:norace
+func RewriteViolations(f func(v *Violation)) {
+	if sim == nil {
+		return
+	}
+	for i := range sim.res.Violations {
+		f(&sim.res.Violations[i])
+	}
 }
 
 // Abort ends the run at the next scheduling point (tasks are abandoned where they are).
